@@ -83,7 +83,7 @@ EPS32 = oc.EPS32
 DEG = oc.DEG
 CLASSES = list(common.CELL_KINDS) + ["near90", "neardegenerate", "widelengths", "distinct", "triclinic", "neardegenerate"]
 ROTS = ["random", "random", "identity", "axisperm", "random"]
-NCASES = {"quick": dict(algebra=420, util=200, history=2000, setters=2), "thorough": dict(algebra=8400, util=3000, history=30000, setters=3)}
+NCASES = {"quick": dict(algebra=1200, util=600, history=6000, setters=2), "thorough": dict(algebra=8400, util=3000, history=30000, setters=3)}
 NCELL = 24
 
 
